@@ -725,6 +725,9 @@ func realBlock1(ntx, txsize int) {
 
 func main() {
 	r = vk.New("exploration")
+	if r.ReplayIn != "" {
+		fmt.Printf("replay %s: the exploration is deterministic and exhaustive; re-running the quick tier re-reports the recorded violation key if it still occurs\n", r.ReplayIn)
+	}
 	if pf := os.Getenv("VERIF_PROF"); pf != "" {
 		f, _ := os.Create(pf)
 		pprof.StartCPUProfile(f)
